@@ -429,6 +429,12 @@ func (f *fa) readSlot(ls locset, t types.Type) locset {
 
 // writeSlot: store a value of static type t (points-to set val) into locations dst.
 func (f *fa) writeSlot(dst locset, t types.Type, val locset) {
+	f.writeSlotSkip(dst, t, val, nil)
+}
+
+// writeSlotSkip: as writeSlot, leaving out the top-level fields in skip (fields of a local struct
+// that are overwritten, unread, right after the whole-struct store: see killedFields).
+func (f *fa) writeSlotSkip(dst locset, t types.Type, val locset, skip map[string]bool) {
 	if !pointerLike(t) {
 		return
 	}
@@ -441,6 +447,15 @@ func (f *fa) writeSlot(dst locset, t types.Type, val locset) {
 					continue
 				}
 				for _, lf := range leaves {
+					if len(skip) > 0 {
+						top := lf.slot
+						if i := strings.IndexAny(top[1:], ".["); i >= 0 {
+							top = top[:i+1]
+						}
+						if skip[strings.TrimPrefix(top, ".")] {
+							continue
+						}
+					}
 					f.addContent(d.o, join(d.p, lf.slot), f.contentOf(s.o, join(s.p, lf.slot), lf.typ))
 				}
 			}
@@ -758,6 +773,7 @@ var stdTable = map[string]stdEffect{
 	"(*encoding/gob.Decoder).Decode":  {writeDeep: []int{0}, decode: []int{1}},
 	"text/tabwriter.NewWriter":        {fresh: true, retain: []int{0}},
 	"(*text/tabwriter.Writer).Flush":  {writeDeep: []int{0}},
+	"(*text/tabwriter.Writer).Write":  {writeDeep: []int{0}},
 	"(*text/tabwriter.Writer).Init":   {writeDeep: []int{0}, retArg: []int{0}},
 	"bufio.NewWriter":                 {fresh: true, retain: []int{0}},
 	"bufio.NewWriterSize":             {fresh: true, retain: []int{0}},
@@ -882,6 +898,166 @@ func (f *fa) stdCall(in ssa.Instruction, v ssa.Value, name string, c *ssa.CallCo
 	for _, k := range e.callsArg {
 		f.callThrough(in, v, args[k], c.Args[k], args)
 	}
+}
+
+// forwardedStore: ld reads a field (or the whole cell) of a local allocation and, going backwards in
+// the same block, the nearest instruction that can have written that memory is a store to exactly
+// that field of that allocation. Calls (other than builtins) and stores through anything that is
+// not visibly another allocation end the search.
+func forwardedStore(ld *ssa.UnOp) ssa.Value {
+	rootOf := func(addr ssa.Value) (ssa.Value, int, bool) { // allocation, field index (-1 = whole), ok
+		switch a := addr.(type) {
+		case *ssa.Alloc:
+			return a, -1, true
+		case *ssa.FieldAddr:
+			if al, ok := a.X.(*ssa.Alloc); ok {
+				return al, a.Field, true
+			}
+		}
+		return nil, 0, false
+	}
+	al, field, ok := rootOf(ld.X)
+	if !ok || field < 0 {
+		return nil
+	}
+	instrs := ld.Block().Instrs
+	at := -1
+	for i, in := range instrs {
+		if in == ssa.Instruction(ld) {
+			at = i
+		}
+	}
+	for i := at - 1; i >= 0; i-- {
+		switch x := instrs[i].(type) {
+		case *ssa.Store:
+			a2, f2, ok2 := rootOf(x.Addr)
+			if ok2 && a2 == al {
+				if f2 == field {
+					return x.Val
+				}
+				if f2 < 0 {
+					return nil // whole-struct store
+				}
+				continue // another field of the same struct
+			}
+			// a store into some other local allocation cannot touch this one
+			base := x.Addr
+			for {
+				switch b := base.(type) {
+				case *ssa.FieldAddr:
+					base = b.X
+					continue
+				case *ssa.IndexAddr:
+					base = b.X
+					continue
+				}
+				break
+			}
+			if _, isAlloc := base.(*ssa.Alloc); isAlloc && base != ssa.Value(al) {
+				continue
+			}
+			if _, isMk := base.(*ssa.MakeSlice); isMk {
+				continue
+			}
+			return nil
+		case *ssa.Call:
+			if _, isB := x.Call.Value.(*ssa.Builtin); isB {
+				continue
+			}
+			return nil
+		case *ssa.Go, *ssa.Defer, *ssa.Send, *ssa.MapUpdate, *ssa.Select:
+			return nil
+		}
+	}
+	return nil
+}
+
+// killedFields: st stores a whole struct into a local allocation ("c := *g"). The fields that the
+// same block then assigns before anything can have read them never hold the copied value; their
+// names are returned so that the copy leaves them out.
+func killedFields(st *ssa.Store) map[string]bool {
+	al, ok := st.Addr.(*ssa.Alloc)
+	if !ok {
+		return nil
+	}
+	sty, ok := al.Type().Underlying().(*types.Pointer).Elem().Underlying().(*types.Struct)
+	if !ok {
+		return nil
+	}
+	var killed map[string]bool
+	read := map[int]bool{}
+	instrs := st.Block().Instrs
+	at := -1
+	for i, in := range instrs {
+		if in == ssa.Instruction(st) {
+			at = i
+		}
+	}
+	for _, in := range instrs[at+1:] {
+		switch x := in.(type) {
+		case *ssa.FieldAddr:
+			if x.X != ssa.Value(al) {
+				continue
+			}
+			for _, r := range *x.Referrers() {
+				switch r := r.(type) {
+				case *ssa.Store:
+					if r.Addr != ssa.Value(x) {
+						read[x.Field] = true
+					}
+				case *ssa.UnOp, *ssa.DebugRef:
+				default:
+					read[x.Field] = true // the field's address goes somewhere
+				}
+			}
+		case *ssa.UnOp:
+			if x.Op != token.MUL {
+				continue
+			}
+			if fa, ok := x.X.(*ssa.FieldAddr); ok && fa.X == ssa.Value(al) {
+				read[fa.Field] = true
+			} else if x.X == ssa.Value(al) {
+				return killed
+			} else {
+				base := x.X
+				for {
+					switch b := base.(type) {
+					case *ssa.FieldAddr:
+						base = b.X
+						continue
+					case *ssa.IndexAddr:
+						base = b.X
+						continue
+					}
+					break
+				}
+				switch base.(type) {
+				case *ssa.Alloc, *ssa.Parameter, *ssa.FreeVar, *ssa.Global, *ssa.MakeSlice:
+					// fixed before the struct existed, or another allocation
+				default:
+					return killed // a load through something that may alias the struct
+				}
+			}
+		case *ssa.Store:
+			if fa, ok := x.Addr.(*ssa.FieldAddr); ok && fa.X == ssa.Value(al) {
+				if !read[fa.Field] {
+					if killed == nil {
+						killed = map[string]bool{}
+					}
+					killed[sty.Field(fa.Field).Name()] = true
+				}
+			} else if x.Addr == ssa.Value(al) {
+				return killed
+			}
+		case *ssa.Call:
+			if _, isB := x.Call.Value.(*ssa.Builtin); !isB {
+				return killed
+			}
+		case *ssa.Go, *ssa.Defer, *ssa.Select, *ssa.MakeClosure, *ssa.MakeInterface:
+			return killed
+		}
+	}
+	return killed
 }
 
 // stdInvoke: interface method call with no module implementer (io.Writer.Write, error.Error ...).
@@ -1042,7 +1218,13 @@ func (f *fa) step(in ssa.Instruction) {
 	case *ssa.UnOp:
 		switch x.Op {
 		case token.MUL:
-			f.add(x, f.readSlot(f.P(x.X), x.Type()))
+			if sv := forwardedStore(x); sv != nil {
+				// the field of a local struct that was assigned just above in the same block: the
+				// load sees that value, not whatever an earlier whole-struct copy put there
+				f.add(x, f.P(sv))
+			} else {
+				f.add(x, f.readSlot(f.P(x.X), x.Type()))
+			}
 		case token.ARROW:
 			et := x.X.Type().Underlying().(*types.Chan).Elem()
 			if x.CommaOk {
@@ -1075,7 +1257,7 @@ func (f *fa) step(in ssa.Instruction) {
 	case *ssa.Store:
 		tg := f.P(x.Addr)
 		f.markWritten(in, tg, "")
-		f.writeSlot(tg, x.Val.Type(), f.P(x.Val))
+		f.writeSlotSkip(tg, x.Val.Type(), f.P(x.Val), killedFields(x))
 	case *ssa.MapUpdate:
 		tg := f.P(x.Map)
 		f.markWritten(in, tg, "[*]")
